@@ -335,9 +335,14 @@ class _SplitLoop(SiteRewriter):
 
 
 def _lister(
-    func: FuncDef, factor: 'Expr | None', strategy: SplitLoopStrategy
+    func: FuncDef, factor: 'Expr | int | str | None', strategy: SplitLoopStrategy
 ) -> '_SplitLoop':
     """The pass instance a listing walks `func` with."""
+    # a listing is given what `split` itself takes: an `int` or a variable name
+    if isinstance(factor, int) and not isinstance(factor, bool):
+        factor = Integer(factor, None)
+    elif isinstance(factor, str):
+        factor = Var(NamedId(factor), None)
     return _SplitLoop(
         func,
         Integer(1, None) if factor is None else factor,
